@@ -51,7 +51,7 @@ def has_cmd_attr(case):
             if n["t"] == "d":
                 if nodes(n["ch"]):
                     return True
-            elif n["kind"] == "parsed" and items(n["items"]):
+            elif n.get("kind") == "parsed" and items(n["items"]):
                 return True
         return False
     return nodes(case["tree"])
@@ -74,7 +74,7 @@ def former_class(root, case):
             if n["t"] == "d":
                 if nodes(n["ch"], excluded or n["name"] in ("target", ".git")):
                     return True
-            elif n["kind"] == "notutf8" and not excluded and n["name"].endswith(".rs") and len(n["name"]) > 3:
+            elif n.get("kind") == "notutf8" and not excluded and n["name"].endswith(".rs") and len(n["name"]) > 3:
                 return True
         return False
     if nodes(case["tree"], False):
@@ -97,7 +97,7 @@ def evaluate(cases, tag="c03"):
         jobs = []
         for i, c in enumerate(cases):
             base = sb.path("c%d" % i)
-            G.write_tree(os.path.join(base, *c["where"]), c["tree"])
+            G.write_tree(os.path.join(base, *c["where"]), c["tree"], os.path.join(base, "__ext"))
             root, cwd = G.root_and_cwd(c, base)
             jobs.append({"id": i, "base": base, "root": root, "cwd": cwd})
         # library level
